@@ -43,8 +43,9 @@ Print Assumptions fingerprint_wire_order_independent_cityhash_and_bernstein.
 
 (* Datadog logs, at the level of the TEXT of the ddtags member (model/DdTags.v: the walk of the regular expression
    tagPattern as FindAllStringSubmatch performs it; \p{L} above U+007F is an oracle; tied to the code on generated texts with
-   junk, non-ASCII letters and ill-formed bytes): on a text that is a comma-separated list of well-formed ASCII tags (name: a
-   letter, then letters digits _ - . \ /; value: at least one of those or ':') the expression returns exactly those tags ... *)
+   junk, non-ASCII letters and ill-formed bytes): on a text that is a comma-separated list of well-formed tags - name: a
+   letter, then letters digits _ - . \ /; value: at least one of those or ':'; any well-formed UTF-8 runes of these classes,
+   for every \p{L} oracle - the expression returns exactly those tags ... *)
 Theorem ddtags_expression_returns_the_tags : forall letter_hi tags,
   forallb (wf_tag letter_hi) tags = true -> dd_tags letter_hi (tags_text tags) = tags.
 Proof. exact dd_tags_of_tags_text. Qed.
